@@ -37,8 +37,8 @@ func c06GenEntity(w *World, p *Peer, addr []uint) *PEnt {
 	}
 	// always: a LoadControl client (1), a Measurement server (2); optionally more
 	e.AddFeature(1, model.FeatureTypeTypeLoadControl, model.RoleTypeClient)
-	e.AddFeature(2, model.FeatureTypeTypeMeasurement, model.RoleTypeServer, PFunc{model.FunctionTypeMeasurementListData, true, w.T.Bool(1, 2, "w")},
-		PFunc{model.FunctionTypeMeasurementDescriptionListData, w.T.Bool(1, 2, "r"), false})
+	e.AddFeature(2, model.FeatureTypeTypeMeasurement, model.RoleTypeServer, PFunc{Fn: model.FunctionTypeMeasurementListData, R: true, W: w.T.Bool(1, 2, "w")},
+		PFunc{Fn: model.FunctionTypeMeasurementDescriptionListData, R: w.T.Bool(1, 2, "r")})
 	n := w.T.Choose(3, "extra-feats")
 	for i := 0; i < n; i++ {
 		pe := serverPalette[w.T.Choose(len(serverPalette), "ftype")]
@@ -50,12 +50,17 @@ func c06GenEntity(w *World, p *Peer, addr []uint) *PEnt {
 		if role == model.RoleTypeServer {
 			for _, f := range pe.Funcs {
 				if w.T.Bool(2, 3, "fn") {
-					fns = append(fns, PFunc{f.Fn, w.T.Bool(3, 4, "r"), w.T.Bool(1, 3, "w")})
+					fns = append(fns, PFunc{Fn: f.Fn, R: w.T.Bool(3, 4, "r"), W: w.T.Bool(1, 3, "w")})
 				}
 			}
 		}
 		f := e.AddFeature(uint(3+i), pe.Type, role, fns...)
 		f.Desc = fmt.Sprintf("feat-desc-%d", w.Uniq())
+		// every combination of read / write, each plain or partial
+		f.Partial = map[model.FunctionType][2]bool{}
+		for _, fn := range fns {
+			f.Partial[fn.Fn] = [2]bool{w.T.Bool(1, 3, "rp"), w.T.Bool(1, 2, "wp")}
+		}
 	}
 	return e
 }
@@ -115,6 +120,10 @@ func init() {
 				ServerTypes: []model.FeatureTypeType{model.FeatureTypeTypeLoadControl, model.FeatureTypeTypeMeasurement}})
 			d := &c06Data{pr: pr, ev: w.CollectEvents(), wantAdd: map[string]int{}, wantRem: map[string]int{}, removed: map[string]bool{}}
 			w.scData = d
+			treeShowPartial = true
+			for _, p := range pr.Peers {
+				p.ReverseEnts = w.T.Bool(1, 2, "entities-listed-children-first")
+			}
 			var lcServer *LFeat
 			for _, s := range pr.Servers {
 				if s.Type == model.FeatureTypeTypeLoadControl {
@@ -133,6 +142,11 @@ func init() {
 				p.Ents = p.Ents[:1]
 				for _, a := range c06Addrs[:1+w.T.Choose(2, "initial-entities")] {
 					p.setEntity(c06GenEntity(w, p, a))
+				}
+				if w.T.Bool(1, 3, "initial-sub-entity") {
+					// (with ReverseEnts the discovery reply names the sub-entity before its parent)
+					p.setEntity(c06GenEntity(w, p, []uint{1, 1}))
+					w.Probe("c06-initial-sub-entity")
 				}
 				for _, e := range p.Ents[1:] {
 					d.wantAdd[p.Name+"|"+fmtUints(e.Addr)]++
@@ -245,7 +259,34 @@ func (d *c06Data) announce(w *World, p *Peer) {
 		}
 	case k < 5:
 		tag = "partial-remove"
-		doRemove(pick())
+		a := pick()
+		if len(a) == 1 && hasChild(a) && w.T.Bool(1, 2, "parent-and-children") {
+			// an entity goes away together with its sub-entities, the parent named first
+			var kids [][]uint
+			for _, e := range p.Ents {
+				if len(e.Addr) > 1 && eqUints(e.Addr[:1], a) {
+					kids = append(kids, e.Addr)
+				}
+			}
+			pe := p.Entity(a)
+			d.wantRem[key(a)]++
+			d.removed[key(a)] = true
+			items = append(items, c06Item{e: pe, removed: true})
+			for _, kaddr := range kids {
+				ke := p.Entity(kaddr)
+				d.wantRem[key(kaddr)]++
+				d.removed[key(kaddr)] = true
+				items = append(items, c06Item{e: ke, removed: true})
+			}
+			for _, kaddr := range kids {
+				p.RemoveEntity(kaddr)
+			}
+			p.RemoveEntity(a)
+			tag = "partial-remove-parent-and-children"
+			w.Probe("c06-parent-and-children-removed")
+		} else {
+			doRemove(a)
+		}
 	case k < 7:
 		// several unrelated entities in one notification, additions and removals in any order
 		tag = "partial-add-and-remove"
